@@ -255,6 +255,7 @@ class C12:
             res.reject = "operand-text-with-raw-line-break"
             return res
         texts = {}
+        show_cls = []
         # assembled instruction sequences are well-formed code objects but not stack-valid programs: the
         # stack-simulating extended formats (and xasm) are only exercised on compiler output
         for fmt in (FORMATS if k != "asm" else ["classic", "bytes", "header"]):
@@ -271,7 +272,6 @@ class C12:
                 continue
             if cap_out.getvalue():
                 res.fail("C12|%s|stdout-noise" % fmt, "%s -F %s wrote to sys.stdout: %r" % (label, fmt, cap_out.getvalue()[:200]))
-        show_cls = []
         if case.get("k") == "prog" and "classic" in texts:
             # show_source=True only ADDS '# <source line>' comment lines to the listing, and writes them to the same stream
             out = io.StringIO()
@@ -292,6 +292,24 @@ class C12:
             except Exception as e:
                 tb = traceback.format_exc()
                 res.fail("C12|show_source|raised|%s|%s" % (type(e).__name__, xdis_frame(tb)), "%s show_source=True raised %s: %s" % (label, type(e).__name__, e))
+        if case.get("k") in ("prog", "stdlib", "asm") and not res.failures and "classic" in texts and os.path.getsize(path) < 60000:
+            # the library supports hosts 3.8-3.13: the same listing whatever it runs on (formats with host-only features
+            # in their code - zip(strict=), removesuffix, match - fail on the older ones)
+            from vf.pool import HOSTS
+            hsel = HOSTS[(len(texts["classic"]) + os.path.getsize(path)) % len(HOSTS)]
+            fmts_h = ["classic", "extended"] if k != "asm" else ["classic"]
+            for fmt in fmts_h:
+                if fmt not in texts:
+                    continue
+                r = ctx.pool.host(hsel).call_raw("x_listing", data=rw.hx(open(path, "rb").read()), fmt=fmt)
+                show_cls.append("listing-on-host:" + hsel)
+                if not r["ok"]:
+                    res.fail("C12|%s|%s|raised-on-host|%s" % (vs, fmt, r["err"].split(":")[0]), "%s -F %s raises on a Python %s host (%s) but lists on 3.12" % (
+                        label, fmt, hsel, r["err"][:160]))
+                elif hsel != vs and norm_host(r["r"]["text"]) != norm_host(texts[fmt]):
+                    a, b = norm_host(r["r"]["text"]).split("\n"), norm_host(texts[fmt]).split("\n")
+                    k2 = next((i for i in range(min(len(a), len(b))) if a[i] != b[i]), min(len(a), len(b)))
+                    res.fail("C12|%s|%s|differs-on-host" % (vs, fmt), "%s -F %s: host %s line %d %r, host 3.12 %r" % (label, fmt, hsel, k2, a[k2:k2 + 1], b[k2:k2 + 1]))
         njt = sum(1 for c in d["dis"] for i in c["instrs"] if i["j"])
         res.nontrivial = len(d["dis"]) >= 2 and njt >= 1
         res.nt_keys = [[label if k not in ("prog", "asm") else (case.get("src") or case.get("items")), f] for f in texts] if res.nontrivial else []
@@ -414,6 +432,12 @@ class C12:
                 if norm(operand) != norm(exp.rstrip()):
                     return ("operand", i["o"], i["n"], "listing operand %r, instruction %r" % (operand[:80], exp[:80]))
         return None
+
+
+def norm_host(t):
+    """a listing without what legitimately names the host or the file's location"""
+    from vf.props.c07 import norm_listing
+    return norm_listing(t)
 
 
 def norm(t):
